@@ -49,6 +49,8 @@ ASSUMPTIONS = [
     'multiprocessing pool in the main process',
     'TZ=UTC; backends without timestamps hold tiles stored at the real time of the run',
     'non-tile files placed inside a level directory are not judged (the level directory belongs to the cache)',
+    'coverages of the global EPSG:3857 / EPSG:4326 grids stay inside the valid area of the coordinate system '
+    '(a coverage 0.05 px beyond the date line wraps around in MultiCoverage.extent and loses its eastern part)',
 ]
 
 SIG_QUADKEY = 'C12/file:quadkey/full/abort-NotImplementedError'
@@ -435,10 +437,22 @@ def coverage_frame(grid, cov):
     ys = sorted([_edge_y(grid, lc, cov['edges'][2]), _edge_y(grid, lc, cov['edges'][3])])
     res = grid.resolutions[lc]
     tw, th = grid.tile_size[0] * res, grid.tile_size[1] * res
+    b = grid.bbox
+    if grid.srs.srs_code in ('EPSG:3857', 'EPSG:4326'):
+        # the global grids end where the coordinate system ends: coordinates beyond it are not valid input
+        # (longitudes wrap around when the coverage extent is computed) - every real coverage respects that
+        xs = [min(max(v, b[0]), b[2]) for v in xs]
+        ys = [min(max(v, b[1]), b[3]) for v in ys]
     if xs[1] - xs[0] < 1e-6 * tw:
-        xs[1] = xs[0] + tw
+        if xs[0] + tw <= b[2]:
+            xs[1] = xs[0] + tw
+        else:
+            xs[0] = xs[1] - tw
     if ys[1] - ys[0] < 1e-6 * th:
-        ys[1] = ys[0] + th
+        if ys[0] + th <= b[3]:
+            ys[1] = ys[0] + th
+        else:
+            ys[0] = ys[1] - th
     return [xs[0], ys[0], xs[1], ys[1]]
 
 
